@@ -123,6 +123,7 @@ class Executor:
         self.h2id = {b: {} for b in self.B}   # handle -> implementation id, per bucket
         self.seen_ids = set()
         # what the caller knows without reading (for runs of calls without intermediate reads)
+        self.handles = {b: [] for b in self.B}   # Bucket handles obtained earlier (kept across delete / re-create)
         self.sh_exists = {b: False for b in self.B}
         self.sh_live = {b: set() for b in self.B}
 
@@ -158,11 +159,22 @@ class Executor:
         for b in self.B:
             rb = self.bname[b]
             lst = self.pmeta(listing[rb]) if rb in listing else {"ex": False}
+            # describing through handles that were obtained earlier (possibly before a delete / re-create of this id)
+            hd = []
+            for h in self.handles[b][-3:]:
+                try:
+                    hm = self.pmeta(h.metadata())
+                    hm["out"] = "ok"
+                except Exception as e:
+                    hm = {"ex": False, "out": type(e).__name__}
+                hd.append(hm)
             try:
                 bucket = self.ds[rb]
             except KeyError:
-                st[b] = {"ex": False, "lst": lst}
+                st[b] = {"ex": False, "lst": lst, "hd": hd}
                 continue
+            if not any(bucket is h for h in self.handles[b]):
+                self.handles[b].append(bucket)
             try:
                 m = self.pmeta(bucket.metadata())
                 evs = [self.pev(e) for e in bucket.get(-1)]
@@ -171,12 +183,12 @@ class Executor:
                 for i in probes:
                     r = bucket.get_by_id(i)
                     byid.append({"id": i, "hit": {"id": -1} if r is None else self.pev(r)})
-                m.update(evs=evs, byid=byid, count=bucket.get_eventcount(), lst=lst)
+                m.update(evs=evs, byid=byid, count=bucket.get_eventcount(), lst=lst, hd=hd)
             except Exception as e:
                 # a handle was handed out but the bucket cannot be read: recorded as an existing bucket in an
                 # unreadable state (no step of the specification produces it)
                 m = {"ex": True, "type": "UNREADABLE:" + type(e).__name__, "client": "?", "host": "?", "name": "?", "data": "?", "created": -99999,
-                     "idok": False, "evs": [], "byid": [], "count": -1, "lst": lst}
+                     "idok": False, "evs": [], "byid": [], "count": -1, "lst": lst, "hd": hd}
             st[b] = m
         return st
 
@@ -193,6 +205,8 @@ class Executor:
                 self.seen_ids |= self.sh_live[b]
         return rec
 
+    inject_foreign = False
+
     def run(self, ops, batch_prob=0.0):
         """batch_prob > 0: some runs of consecutive calls are issued without any read in between and recorded as one
         'batch' record (sub-calls with their outcomes, then one observation of the full state)"""
@@ -207,6 +221,14 @@ class Executor:
                     if r is not None:
                         subs.append(r)
                     j += 1
+                if subs and ((j < len(ops) and ops[j]["op"] == "foreign") or (self.inject_foreign and self.rnd.random() < 0.4)):
+                    # an out-of-contract id as the last call of the run (no read before it either)
+                    fop = ops[j] if j < len(ops) and ops[j]["op"] == "foreign" else {"op": "foreign", "b": self.rnd.choice(self.B)}
+                    r = self.foreign_noread(fop)
+                    if r is not None:
+                        subs.append(r)
+                    if j < len(ops) and ops[j]["op"] == "foreign":
+                        j += 1
                 i = j
                 if subs:
                     trace.append(self._observe({"op": "batch", "b": subs[-1]["b"], "out": "ok", "ops": subs}))
@@ -217,6 +239,33 @@ class Executor:
                 continue
             trace.append(self._observe(rec))
         return trace
+
+    def foreign_noread(self, op):
+        b = op["b"]
+        rb = self.bname[b]
+        if not self.sh_exists[b]:
+            return None
+        others = sorted({x for c in self.B if c != b for x in self.sh_live[c]} - self.sh_live[b])
+        want = self.rnd.choice(["live", "live", "huge", "dead"])
+        if want == "live" and others:
+            i = self.rnd.choice(others)
+        elif want == "huge":
+            i = 2 ** 64
+        else:
+            i = 987654
+        e = op.get("ev") or {"ts": 1, "dur": 1, "d": "d1"}
+        kind = self.rnd.choice(["replace", "upsert", "delete"])
+        rec = {"op": "foreign", "b": b, "kind": kind, "id": i if i < 2 ** 31 else -3, "out": "ok"}
+        try:
+            if kind == "replace":
+                self.ds[rb].replace(i, self.mkev(e))
+            elif kind == "upsert":
+                self.ds[rb].insert([self.mkev(e, id=i)])
+            else:
+                self.ds[rb].delete(i)
+        except Exception as ex:
+            rec["out"] = type(ex).__name__
+        return rec
 
     def step_noread(self, op):
         """like step(), but decides applicability from what the caller already knows and never reads"""
@@ -466,9 +515,11 @@ class Executor:
                 i = self.rnd.choice(sorted(cands))
             else:
                 i = 987654
+            if self.rnd.random() < 0.1:
+                i = 2 ** 64                      # an absurd id: rejected or ignored, never harmful to other buckets
             e = op.get("ev") or {"ts": 1, "dur": 1, "d": "d1"}
             kind = op.get("kind") or self.rnd.choice(["replace", "upsert", "delete"])
-            rec.update(id=i, kind=kind)
+            rec.update(id=i if i < 2 ** 31 else -3, kind=kind)
             try:
                 if kind == "replace":
                     ds[rb].replace(i, self.mkev(e))
@@ -595,6 +646,7 @@ def _worker(args):
                     close_datastore(kind, ds)
                 ds = mk_datastore(kind, root, "db%d" % n)
             ex = Executor(ds, kind, rnd, "%s%d" % (key, n))
+            ex.inject_foreign = any(o["op"] == "foreign" for o in ops) or key.startswith("F")
             tr = ex.run(ops, batch_prob=batch_prob)
             ex.cleanup()
             out.append((key, {"backend": kind, "base": ex.cz.base.isoformat(), "scale": ex.cz.scale, "ops": ops, "trace": tr}))
